@@ -887,7 +887,19 @@ def _r6(repo, L, idx, store: Func, roles):
         if unpack and ctor:
             names = [e.id for e in unpack[0].targets[0].elts]
             args = [norm(a) for a in ctor[0].args]
-            key = [n for n in walk_shallow(li.node) if isinstance(n, ast.Assign) and isinstance(n.targets[0], ast.Subscript) and n.value is ctor[0]]
+            from ..util import local_defs as _ld
+
+            def _is_ctor(v):
+                if v is ctor[0]:
+                    return True
+                if isinstance(v, ast.Name):
+                    ds = _ld(li, v.id)
+                    return len(ds) == 1 and ds[0] is ctor[0]
+                return False
+
+            key = [n for n in walk_shallow(li.node) if isinstance(n, ast.Assign) and isinstance(n.targets[0], ast.Subscript) and _is_ctor(n.value)]
             ok = args == names[1:] and bool(key) and norm(key[0].targets[0].slice) == names[0]
             why = f"loader unpacks {names} and builds FastaInfo({', '.join(args)})"
+    if not ok and why == "load_index structure not recognised":
+        raise AnalysisError("FastaIndex.load_index: how a .fai line is unpacked and turned into a FastaInfo is not a form understood")
     L.check(ok, "R6", "FastaIndex.load_index", "columns 2..5 passed to FastaInfo in file order, keyed by column 1", why, li.loc() if li else "")
